@@ -40,6 +40,11 @@ func hasLoop(fn *ssa.Function) bool {
 func (e *Exec) call(fr *Frame, st *State, x *ssa.Call) (Value, bool) {
 	c := &x.Call
 	e.onCall(fr, st, x)
+	if fr.parent == nil {
+		if k := "L$ncall_" + calleeName(c); st.heap[k] != nil {
+			st.heap[k] = e.def(SInt, Add(st.heap[k], IntLit(1)))
+		}
+	}
 	for _, h := range e.hooks {
 		if handled, res := h.Call(e, fr, st, c, x); handled {
 			if res == nil && x.Type() != nil {
@@ -60,6 +65,14 @@ func (e *Exec) call(fr *Frame, st *State, x *ssa.Call) (Value, bool) {
 		case "Lock", "Unlock", "RLock", "RUnlock":
 			if n, ok := c.Value.Type().(*types.Named); ok && n.Obj().Name() == "Locker" {
 				return nil, true
+			}
+		}
+	}
+	if callee == nil && c.Method != nil && len(c.Args) == 0 && e.Opt.Contracts != nil {
+		if n, ok := c.Value.Type().(*types.Named); ok && e.Opt.Contracts.PureMethods[n.Obj().Name()+"."+c.Method.Name()] {
+			rt := x.Type()
+			if rs := sortOf(rt); rs == SInt || rs == SBool || rs == SObj || rs == SSl {
+				return e.pureMethod(c.Method.Name(), rs, e.term(fr, st, c.Value)), true
 			}
 		}
 	}
@@ -682,4 +695,17 @@ found:
 		}
 		e.oblige(st, "on-call", fmt.Sprintf("%s#%d:%s", name, nth, lbl), e.evalClause(en, &Clause{Text: oc.Text, Expr: oc.Expr}), e.posOf(x))
 	}
+}
+
+// pureMethod: the assumed-pure interface method as an uninterpreted function of the receiver.
+func (e *Exec) pureMethod(name, sort string, recv *Term) *Term {
+	f := "pm_" + name
+	if !e.declared[f] {
+		e.declared[f] = true
+		e.emit("(declare-fun %s (Obj) %s)", f, sort)
+		if sort == SSl {
+			e.emit("(assert (forall ((o Obj)) (! (sl-ok (%s o)) :pattern ((%s o)))))", f, f)
+		}
+	}
+	return App(sort, f, recv)
 }
